@@ -12,6 +12,8 @@ From Coq Require Import ZArith List Bool Lia QArith Lqa.
 From Coq.micromega Require Import OrderedRing ZMicromega QMicromega.
 Import ListNotations.
 From RV Require Import Gen.SweepSched Model.Sweep Proofs.SweepProofs Base.Rayleigh Proofs.RayleighProofs.
+From RV Require Import Base.CRing Model.Chain Model.Env Proofs.EnvProofs Model.Cano Model.Heff Proofs.HeffProofs.
+From RV Require Model.TreeOpt Proofs.TreeOptProofs.
 Close Scope Q_scope.
 Local Open Scope Z_scope.
 
@@ -54,9 +56,9 @@ Proof. vm_compute. repeat split. Qed.
 
 (* the model can tell stale from fresh: bumping a site after the environments were built makes the reads that depend on it stale *)
 Example C08_stale_is_detected :
-  let m := init 4 false (fun _ => O) in
+  let m := Sweep.init 4 false (fun _ => O) in
   let m' := mkM (to_right m) (qnidx m) (bump (sto m) 3) (hand m) (log m) (obsl m) in
-  stale_count (run true 4 1 m') = 4.
+  Sweep.stale_count (Sweep.run true 4 1 m') = 4.
 Proof. vm_compute. reflexivity. Qed.
 
 (* ---------------------------------------------------------------------------------------- variational bound *)
@@ -194,6 +196,187 @@ Theorem C08_second_root :
   rle lam2 th2.
 Proof. exact second_root_bound. Qed.
 Print Assumptions C08_second_root.
+
+(* k-th root for every k (min-max, complete): k orthonormal Ritz vectors with Ritz values theta_i <= top, v_0..v_{k-2}
+   the lowest exact eigenvectors (only "H >= lamk on their orthogonal complement" is used)  ==>  lamk <= top.
+   The dimension count (k-1 homogeneous equations in k unknowns have a non-trivial solution) is proved for every
+   ordered ring by fraction-free elimination (Proofs/RayleighProofs.v: homogeneous_solution). *)
+Theorem C08_roots_minmax :
+  forall (R : Type) (rO rI : R) (rplus rtimes rminus : R -> R -> R) (ropp : R -> R) (req rle rlt : R -> R -> Prop),
+  SOR rO rI rplus rtimes rminus ropp req rle rlt ->
+  forall (V : Type) (ipV : V -> V -> R) (H : V -> V) (vzero : V) (vadd : V -> V -> V) (vscale : R -> V -> V),
+  (forall x y : V, req (ipV x y) (ipV y x)) ->
+  (forall x : V, req (ipV x vzero) rO) ->
+  (forall x y z : V, req (ipV x (vadd y z)) (rplus (ipV x y) (ipV x z))) ->
+  (forall (x : V) (a : R) (y : V), req (ipV x (vscale a y)) (rtimes a (ipV x y))) ->
+  (forall x y : V, req (ipV x (H y)) (ipV (H x) y)) ->
+  (forall z : V, req (ipV z (H vzero)) rO) ->
+  (forall z x y : V, req (ipV z (H (vadd x y))) (rplus (ipV z (H x)) (ipV z (H y)))) ->
+  (forall (z : V) (a : R) (x : V), req (ipV z (H (vscale a x))) (rtimes a (ipV z (H x)))) ->
+  forall (k : nat) (y : nat -> V) (theta : nat -> R) (top : R),
+  (forall i j : nat, (i < k)%nat -> (j < k)%nat -> req (ipV (y i) (y j)) (kd R rO rI i j)) ->
+  (forall i j : nat, (i < k)%nat -> (j < k)%nat -> req (ipV (y i) (H (y j))) (rtimes (theta i) (kd R rO rI i j))) ->
+  (forall i : nat, (i < k)%nat -> rle (theta i) top) ->
+  forall (v : nat -> V) (lamk : R),
+  (forall x : V, (forall j : nat, (S j < k)%nat -> req (ipV (v j) x) rO) -> rle (rtimes lamk (ipV x x)) (ipV x (H x))) ->
+  (0 < k)%nat -> rle lamk top.
+Proof. exact roots_minmax. Qed.
+Print Assumptions C08_roots_minmax.
+
+(* ---------------------------------------------------------------------------------- H_eff = P^dagger H P *)
+(* heff_is_projection (one site).  left / right: the ket chain before / after the centre in C07's format
+   (physical dim, right bond dim, tensor); lo / ro: the operator chain there; the centre has physical dimension p,
+   right bond dr, operator tensor W (right bond bo).  L and R are the environments Environ builds (Model/Env.v).
+   For ALL centre tensors X, Y:  <X, H_eff Y>  (hop_expr's contraction "abc, bdef, lfk, cek -> adl")  equals
+   <P X, H P Y>  with P X the dense vector of the chain  left ++ [X] ++ right  and H the dense operator of the MPO. *)
+Theorem C08_heff_is_projection :
+  forall (R : CRing) (left : list (nat * nat * T3 R)) (lo : list (nat * T4 R)) (p dr bo : nat) (W : T4 R)
+         (right : list (nat * nat * T3 R)) (ro : list (nat * T4 R)) (X Y : T3 R),
+  length lo = length left -> length ro = length right ->
+  lastdim dr (kchain R right) = 1%nat -> lastdim bo ro = 1%nat ->
+  let da := lastdim 1 (kchain R left) in
+  let db := lastdim 1 lo in
+  let L := envL3 1 1 1 sentinel (hsand left lo) in
+  let Rt := envR3 (hsand right ro) sentinel in
+  let ds := (kdims R left ++ p :: kdims R right)%list in
+  ipW3 da p dr X (heff1_apply da db p dr bo L Rt W Y) =
+  ipV ds (Pvec left dr right X) (Hdense (lo ++ (bo, W) :: ro) ds (Pvec left dr right Y)).
+Proof. exact heff1_is_projection. Qed.
+Print Assumptions C08_heff_is_projection.
+
+(* get_ham_direct's matrix "abc,bdef,lfk->adlcek" applied to a tensor is the same contraction *)
+Theorem C08_heff_matrix_is_hop :
+  forall (R : CRing) (da db p dr bo : nat) (L Rt : E3 R) (W : T4 R) (C : T3 R) (a d f : nat),
+  matvec1 da p dr (heff1_mat db bo L Rt W) C a d f = heff1_apply da db p dr bo L Rt W C a d f.
+Proof. exact heff1_mat_apply. Qed.
+Print Assumptions C08_heff_matrix_is_hop.
+
+(* P^dagger P = I when every site before the centre is a left isometry and every site after it a right isometry
+   (the predicates of C04: Model/Cano.v left_iso / right_iso with weight 1) *)
+Theorem C08_P_isometry :
+  forall (R : CRing) (left : list (nat * nat * T3 R)) (p dr : nat) (right : list (nat * nat * T3 R)) (X Y : T3 R),
+  allP R (left_iso R (r1 R)) 1 (kdims R left) (kchain R left) ->
+  allP R (right_iso R (r1 R)) dr (kdims R right) (kchain R right) ->
+  lastdim dr (kchain R right) = 1%nat ->
+  let da := lastdim 1 (kchain R left) in
+  let ds := (kdims R left ++ p :: kdims R right)%list in
+  ipV ds (Pvec left dr right X) (Pvec left dr right Y) = ipW3 da p dr X Y.
+Proof. exact P1_isometry. Qed.
+Print Assumptions C08_P_isometry.
+
+(* the hypotheses exactly as C04_cano_isometry provides them (prefixP left_iso / afterP right_iso on the whole chain
+   with the centre at index length left) give the two block hypotheses above *)
+Theorem C08_canonical_blocks :
+  forall (R : CRing) (left : list (nat * nat * T3 R)) (p dr : nat) (C : T3 R) (right : list (nat * nat * T3 R)),
+  canonical_around R left p dr C right ->
+  allP R (left_iso R (r1 R)) 1 (kdims R left) (kchain R left) /\
+  allP R (right_iso R (r1 R)) dr (kdims R right) (kchain R right).
+Proof. exact canonical_blocks. Qed.
+Print Assumptions C08_canonical_blocks.
+
+(* two sites: hop_expr's "abc, bdef, fghj, ljk, cehk -> adgl" is the one-site contraction of the chain in which the two
+   centre sites are merged (physical index d1*p2+d2 as NumPy's reshape, operator tensor sum_f W1 W2); the merged chain
+   has the same dense amplitudes (C08_chain_merge), so all one-site theorems apply to the two-site problem *)
+Theorem C08_heff2_is_merged_heff1 :
+  forall (R : CRing) (da db p1 p2 dr b1 bo : nat) (L Rt : E3 R) (W1 W2 : T4 R) (C2 : nat -> nat -> nat -> nat -> R) (a d g l : nat),
+  (g < p2)%nat ->
+  heff2_apply da db p1 p2 dr b1 bo L Rt W1 W2 C2 a d g l =
+  heff1_apply da db (p1 * p2) dr bo L Rt (merge_op p2 b1 W1 W2) (merge_c2 p2 C2) a (d * p2 + g)%nat l.
+Proof. exact heff2_merge. Qed.
+Print Assumptions C08_heff2_is_merged_heff1.
+
+Theorem C08_chain_merge :
+  forall (R : CRing) (p2 d1 d2 : nat) (t1 t2 : T3 R) (ts : list (nat * T3 R)) (x1 x2 : nat) (s : list nat) (l r : nat),
+  (x2 < p2)%nat ->
+  chain3 ((d1, t1) :: (d2, t2) :: ts) (x1 :: x2 :: s) l r =
+  chain3 ((d2, merge_ket p2 d1 t1 t2) :: ts) ((x1 * p2 + x2)%nat :: s) l r.
+Proof. exact chain3_merge. Qed.
+Print Assumptions C08_chain_merge.
+
+Theorem C08_operator_merge :
+  forall (R : CRing) (p2 b1 b2 : nat) (W1 W2 : T4 R) (ts : list (nat * T4 R)) (u1 u2 : nat) (su : list nat) (v1 v2 : nat) (sd : list nat) (l r : nat),
+  (u2 < p2)%nat -> (v2 < p2)%nat ->
+  chain4 ((b1, W1) :: (b2, W2) :: ts) (u1 :: u2 :: su) (v1 :: v2 :: sd) l r =
+  chain4 ((b2, merge_op p2 b1 W1 W2) :: ts) ((u1 * p2 + u2)%nat :: su) ((v1 * p2 + v2)%nat :: sd) l r.
+Proof. exact chain4_merge. Qed.
+Print Assumptions C08_operator_merge.
+
+(* the bound, unconditionally for the chain (real ordered scalars: a CRing whose carrier carries an SOR with Leibniz
+   equality, e.g. Z): every Rayleigh quotient e of the MASKED one-site effective Hamiltonian of a chain that is
+   canonical around the centre is >= every lower bound lam of the form of the dense H on the sector S0, provided the
+   mask keeps P c inside the sector (what the quantum-number mask is for; C06). *)
+Theorem C08_chain_energy_bound :
+  forall (R : CRing) (rle rlt : R -> R -> Prop),
+  SOR (r0 R) (r1 R) (radd R) (rmul R) (rsub R) (ropp R) eq rle rlt ->
+  forall (m : nat -> nat -> nat -> bool) (left : list (nat * nat * T3 R)) (lo : list (nat * T4 R)) (p dr bo : nat) (W : T4 R)
+         (right : list (nat * nat * T3 R)) (ro : list (nat * T4 R)) (C0 : T3 R) (S0 : vec R -> Prop) (lam : R),
+  length lo = length left -> length ro = length right ->
+  lastdim dr (kchain R right) = 1%nat -> lastdim bo ro = 1%nat ->
+  canonical_around R left p dr C0 right ->
+  let da := lastdim 1 (kchain R left) in
+  let db := lastdim 1 lo in
+  let L := envL3 1 1 1 sentinel (hsand left lo) in
+  let Rt := envR3 (hsand right ro) sentinel in
+  let ds := (kdims R left ++ p :: kdims R right)%list in
+  let ops := (lo ++ (bo, W) :: ro)%list in
+  (forall C : T3 R, S0 (Pvec left dr right (maskT m C))) ->
+  (forall x : vec R, S0 x -> rle (rmul R lam (ipV ds x x)) (ipV ds x (Hdense ops ds x))) ->
+  forall (C : T3 R) (e : R),
+  is_rayleigh R (r0 R) (rmul R) eq rlt e
+    (ipW3 da p dr (maskT m C) (maskT m C))
+    (ipW3 da p dr (maskT m C) (heff1_masked m da db p dr bo L Rt W C)) ->
+  rle lam e.
+Proof. exact chain_energy_bound. Qed.
+Print Assumptions C08_chain_energy_bound.
+
+(* non-vacuity of C08_chain_energy_bound over Z: two spins, H = 1 (x) sigma_z (MPO bond 1), first site the left
+   isometry delta(p,r), centre on the second site: the hypotheses hold with lam = -1 and the Rayleigh quotient -1
+   of the centre tensor delta(d,1) is attained (the bound is tight) *)
+Definition exc_t0 : T3 ZRing := fun l p r => if (l =? 0)%nat && (p =? r)%nat then 1 else 0.
+Definition exc_id : T4 ZRing := fun _ d e _ => if (d =? e)%nat then 1 else 0.
+Definition exc_W : T4 ZRing := fun _ d e _ => if (d =? e)%nat then (if (d =? 0)%nat then 1 else -1) else 0.
+Definition exc_left : list (nat * nat * T3 ZRing) := [(2%nat, 2%nat, exc_t0)].
+Definition exc_lo : list (nat * T4 ZRing) := [(1%nat, exc_id)].
+Definition exc_C : T3 ZRing := fun _ d _ => if (d =? 1)%nat then 1 else 0.
+
+Example C08_chain_bound_instance :
+  canonical_around ZRing exc_left 2 1 (fun _ _ _ => 0) [] /\
+  (forall x : vec ZRing, -1 * ipV (R:=ZRing) [2; 2]%nat x x <= ipV (R:=ZRing) [2; 2]%nat x (Hdense (exc_lo ++ [(1%nat, exc_W)]) [2; 2]%nat x)) /\
+  is_rayleigh Z 0 Z.mul eq Z.lt (-1)
+    (ipW3 (R:=ZRing) 2 2 1 exc_C exc_C)
+    (ipW3 (R:=ZRing) 2 2 1 exc_C (heff1_apply (R:=ZRing) 2 1 2 1 1 (envL3 1 1 1 sentinel (hsand exc_left exc_lo)) (envR3 (hsand [] []) sentinel) exc_W exc_C)).
+Proof.
+  split; [|split].
+  - unfold canonical_around. cbn. split; [|exact I]. split; [|exact I].
+    intros a b Ha Hb. destruct a as [|[|a]]; [| |exfalso; lia]; (destruct b as [|[|b]]; [| |exfalso; lia]); reflexivity.
+  - intros x. cbv - [Z.mul Z.add Z.opp Z.le Z.sub].
+    set (x00 := x [0;0]%nat). set (x01 := x [0;1]%nat). set (x10 := x [1;0]%nat). set (x11 := x [1;1]%nat).
+    pose proof (Z.square_nonneg x00). pose proof (Z.square_nonneg x10). nia.
+  - split; vm_compute; reflexivity.
+Qed.
+
+(* ------------------------------------------------------------------------------------------------- trees *)
+(* tree_env_fresh: optimize_ttns on ANY tree whose root has a child (the code asserts it), any number of sweeps, any
+   initial versions: every environment read -- by hop_expr2 for a two-site problem, or by TTNEnviron's build_* functions
+   to make another environment, including the initial construction -- carries the current versions of exactly the nodes
+   it depends on (subtree of the child for environ_children, complement of the own subtree for environ_parent). *)
+Theorem C08_tree_env_fresh :
+  forall (T : TreeOpt.tree) (k : nat) (vr : TreeOpt.path -> nat),
+  (0 < TreeOpt.nch T)%nat -> Forall TreeOpt.obs_ok (TreeOpt.obsl (TreeOpt.optimize T k vr)).
+Proof. exact TreeOptProofs.tree_env_fresh_all. Qed.
+Print Assumptions C08_tree_env_fresh.
+
+(* non-vacuity: a ten-node tree, three sweeps: 496 environment reads *)
+Example C08_tree_nonvacuous :
+  let T := TreeOpt.of_shape [3; 2; 0; 0; 1; 1; 0; 2; 0; 0]%nat in
+  length (TreeOpt.all_paths_t T []) = 10%nat /\ length (TreeOpt.obsl (TreeOpt.optimize T 3 (fun _ => O))) = 496%nat.
+Proof. vm_compute. split; reflexivity. Qed.
+(* the tree model can tell stale from fresh: bumping a node after the cache was built makes reads stale *)
+Example C08_tree_stale_is_detected :
+  let T := TreeOpt.of_shape [2; 1; 0; 0]%nat in
+  let s := TreeOpt.init T (fun _ => O) in
+  (0 < TreeOpt.stale_count T (TreeOpt.sweeps T 1 (TreeOpt.bump [0; 0]%nat s)))%nat.
+Proof. vm_compute. lia. Qed.
 
 (* ------------------------------------------------------------------------------------------ instances *)
 (* Z^2 with H = [[2,1],[1,2]] (eigenvalues 1, 3), W = Z embedded as the first axis: the projected operator is
